@@ -38,6 +38,18 @@ func cpSpellings(r rune, raw string) []string {
 	if lo.String() != up.String() {
 		out = append(out, lo.String())
 	}
+	// escapes whose two hex digits differ in case (%eF, %Ef): only bytes with two letter digits have them
+	var m1, m2 strings.Builder
+	for i := 0; i < len(raw); i++ {
+		h := fmt.Sprintf("%02x", raw[i])
+		m1.WriteString("%" + strings.ToUpper(h[:1]) + h[1:])
+		m2.WriteString("%" + h[:1] + strings.ToUpper(h[1:]))
+	}
+	for _, m := range []string{m1.String(), m2.String()} {
+		if m != up.String() && m != lo.String() && (len(out) == 0 || out[len(out)-1] != m) {
+			out = append(out, m)
+		}
+	}
 	if r >= 'a' && r <= 'z' {
 		out = append(out, fmt.Sprintf("%%%02X", r-32))
 	} else if r >= 'A' && r <= 'Z' {
@@ -182,7 +194,7 @@ func init() {
 		ID:    "C09",
 		Level: "exploration",
 		Rule: "hosts: every string of <=2 code points over all 128 ASCII code points, every string of <=k symbols over a 21-symbol reduced alphabet (letters, digits, - _ . and mapped/ignored/joiner/bidi/fullwidth/deviation characters, an invalid byte), ACE probes, and all spellings of 'localhost' under file:; " +
-			"for each host ALL spellings are enumerated (each code point literal / other ASCII case / %XX / %xx / escape of the other case; full product up to 4 code points, at most 3 deviating code points beyond) and must give one outcome; " +
+			"for each host ALL spellings are enumerated (each code point literal / other ASCII case / %XX / %xx / %Xx / %xX / escape of the other case; full product up to 4 code points, at most 3 deviating code points beyond) and must give one outcome; " +
 			"result ASCII, lower case, no forbidden domain code point; plain-ASCII non-ACE hosts are compared with the standard's host parser. non-trivial = hosts whose reference spelling is accepted",
 		Assume:  []string{"IDNA mapping itself is out of scope (C09 checks consistency around it)", "model host parser for plain-ASCII hosts"},
 		Trusted: []string{"verif/model (ASCII host path only)"},
